@@ -8,7 +8,7 @@ SWEEP_NOTE = " Both tiers also run the exhaustive small-scope sweep of this fami
 
 COMMON_NOTE = (
     "Trusted base: the harness (scripted children, adversarial executor, event log, reference models in /verif/harness/src) and "
-    "the generators' bounds (tuple arity <= 12, array lengths {0,1,2,3,4,5,8,13}, Vec lengths up to 257, scripts <= 8 steps, one "
+    "the generators' bounds (tuple arity <= 12, array lengths {0,1,2,3,4,5,8,13,257}, Vec lengths up to 257, scripts <= 8 steps, one "
     "level of nesting). Holds only for the executions generated; a timed-out shard or crashed tool is inconclusive."
 )
 
